@@ -175,7 +175,7 @@ class NeuralUCB(RLAlgorithm):
         self.sigma_inv = torch.eye(self.numel).to(self.device) / self.lamb
         self.theta_0 = torch.cat(
             [w.flatten() for w in self.exp_layer.parameters() if w.requires_grad]
-        )
+        ).detach()
 
     def get_action(
         self, obs: ObservationType, action_mask: Optional[ArrayLike] = None
